@@ -33,7 +33,7 @@ func run(e *harness.Env) {
 	e.Rule = "grid grammar: full product of K columns (1..2 quick plus K=3 for R=2, 1..4 thorough) x R rows (1,2,3,8 quick; 1,2,3,4,8 thorough) x W words per line (1..3) x API, and on top of each grid every " +
 		"combination of at most 2 (quick) / 3 (thorough) deviations among: justified, heading (first/last column, or a 30pt in-column heading), short last line, single-word line, overhanging word (near/far), " +
 		"spanning title (top/mid), list markers (bullet/numbered/nested), RTL run, character-level fragmentation, exact duplicate overlay (all/line), inverted Y, coordinates x0.1, " +
-		"single narrow glyph line (I/1), repeated text at a different position (word / doubled letter), hyphenated line end, columns not baseline-aligned (stagger),  descending map order (APIs with paragraph detection), one absent cell per deviation. Reuse sub-space: for each of 12 detector/analyzer instance types, one instance analyses every ordered sequence A,B / A,B,A / A,A / A|B (thorough also A,B,C and A,B,A,B) over 17 reduced grammar pages with disjoint tokens; all results are rendered only afterwards and must equal the rendering by a fresh instance. distinct = distinct (API, grid, deviation vector); non-trivial = at least one deviation"
+		"single narrow glyph line (I/1), repeated text at a different position (word / doubled letter), hyphenated line end, columns not baseline-aligned (stagger),  descending map order (APIs with paragraph detection), one absent cell per deviation. Stack sub-space: pages of 4 (quick) / 5 (thorough) lines, every line left / middle / right / full width, boxes 12 on 14.4, 15 on 10, 12 on 8 (full product): every merge topology of up to 4/5 blocks. Reuse sub-space: for each of 12 detector/analyzer instance types, one instance analyses every ordered sequence A,B / A,B,A / A,A / A|B (thorough also A,B,C and A,B,A,B) over 17 reduced grammar pages with disjoint tokens; all results are rendered only afterwards and must equal the rendering by a fresh instance. distinct = distinct (API, grid, deviation vector); non-trivial = at least one deviation"
 	e.Assumptions = []string{
 		"Part 2 trusts tabula's PDF parsing and text positioning (C01/C08) to deliver the fragments: the reference is the list of fragments written into the PDF, their widths/heights are taken from tabula.Open(f).Fragments()",
 		"text.DetectDirection is used to label the direction of Part-1 input fragments exactly as text extraction would",
@@ -46,6 +46,9 @@ func run(e *harness.Env) {
 	only := os.Getenv("C09_API") // debugging aid: restrict to one API ("reuse": only the reuse sub-space)
 	if only == "" || only == "reuse" {
 		reuseSpace(e) // small; first, so that the time cap never cuts it
+	}
+	if only == "" || only == "stack" {
+		stackSpace(e)
 	}
 	for _, a := range apis {
 		if only != "" && a.name != only {
@@ -84,6 +87,16 @@ func evaluate(e *harness.Env, c *harness.Ctx, a api, p *pageSpec) {
 		c.Pass("counted")
 		return
 	}
+	sig, detail, files := runCase(e, desc, a, p)
+	if sig != "" {
+		c.Fail(sig, detail, files)
+		return
+	}
+	c.Pass(outcomeOf(p, len(p.frags)))
+}
+
+// runCase runs one API on one page and judges it; sig == "" means the property held.
+func runCase(e *harness.Env, desc string, a api, p *pageSpec) (string, string, map[string][]byte) {
 	e.Begin(desc)
 	if p.mapDesc {
 		os.Setenv("C09_MAPORDER", "desc")
@@ -116,17 +129,78 @@ func evaluate(e *harness.Env, c *harness.Ctx, a api, p *pageSpec) {
 		v.input = fr
 	})
 	if sig != "" {
-		c.Fail(sig, det, files)
-		return
+		return sig, det, files
 	}
 	v.part = a.part
 	vd := judge(items, v, a.family, a.aspect)
 	if !vd.ok {
 		debugLog(a.name, vd.sig, desc)
-		c.Fail(vd.sig, vd.detail+"\npage: "+p.describe(), files)
-		return
+		return vd.sig, vd.detail + "\npage: " + p.describe(), files
 	}
-	c.Pass(outcomeOf(p, len(items)))
+	return "", "", nil
+}
+
+// ---- stack sub-space: every merge topology over a few blocks -------------------------------------------
+//
+// The grid grammar only rarely produces blocks whose boxes overlap. Here a page is a stack of L lines (4 quick,
+// 5 thorough); every line independently has one of four horizontal shapes (two words at the left, in the middle,
+// at the right, or left AND right = full width) and the page one of three (glyph size, line pitch) pairs: boxes that
+// do not overlap vertically (12 on 14.4), overlap by a third (15 on 10) or by a third of a smaller box (12 on 8).
+// Lines without horizontal overlap start a new block, so the full product contains every arrangement of up to L
+// blocks: chains (A-B, B-C), stars, and staircases in which only the MERGED box of two blocks overlaps a third.
+func stackSpace(e *harness.Env) {
+	L := 4
+	if e.Thorough() {
+		L = 5
+	}
+	shapes := []struct {
+		name string
+		xs   []float64
+	}{{"L", []float64{50, 80}}, {"M", []float64{170, 200}}, {"R", []float64{300, 330}}, {"F", []float64{50, 80, 300, 330}}}
+	pitches := []struct {
+		name        string
+		size, pitch float64
+	}{{"12on14.4", 12, 14.4}, {"15on10", 15, 10}, {"12on8", 12, 8}}
+	total := 1
+	for i := 0; i < L; i++ {
+		total *= len(shapes)
+	}
+	for _, a := range apis {
+		if a.part == 2 && a.name != "Blocks" && a.name != "Lines" && a.name != "Text" && a.name != "Elements" {
+			continue // the PDF route adds nothing per API here; keep the block, line, text and element observation points
+		}
+		for _, pt := range pitches {
+			for code := 0; code < total; code++ {
+				var sb strings.Builder
+				x := code
+				idx := make([]int, L)
+				for i := range idx {
+					idx[i] = x % len(shapes)
+					x /= len(shapes)
+					sb.WriteString(shapes[idx[i]].name)
+				}
+				desc := harness.D("part", a.part, "api", a.name, "space", "stack", "lines", sb.String(), "boxes", pt.name)
+				if !e.Own(desc) {
+					continue
+				}
+				p := &pageSpec{K: 1, R: L, W: 2, absent: map[[2]int]bool{}, scaleF: 1, heading: "none", overhang: "none", title: "none", list: "none", dup: "none", narrow: "none", repeat: "none"}
+				ts := &tokenSrc{}
+				for i := range idx {
+					y := topY - float64(i)*pt.pitch
+					for _, fx := range shapes[idx[i]].xs {
+						w := ts.next()
+						p.frags = append(p.frags, frag{text: w, x: fx, y: y, w: textWidth(w, pt.size), size: pt.size, role: "body", col: 0, row: i})
+					}
+				}
+				sig, detail, files := runCase(e, desc, a, p)
+				if sig != "" {
+					e.Fail(desc, sig, detail, files)
+					continue
+				}
+				e.Pass(desc, true, "stack:"+pt.name)
+			}
+		}
+	}
 }
 
 // outcomeOf is a coarse class of the page that passed (vacuity check: several classes must occur).
